@@ -104,6 +104,10 @@ Section Eqs.
   Proof. destruct v; reflexivity. Qed.
   Lemma wt_TDisc v p wf sup : wt v (TDisc p wf sup) = wt v (TDc p).
   Proof. destruct v; reflexivity. Qed.
+  Lemma pack_TDiscU m v cs wf sb sp pc px k : pack m v (TDiscU cs wf sb sp) pc px k = pack m v (TUnion cs) pc px k.
+  Proof. destruct v; reflexivity. Qed.
+  Lemma wt_TDiscU v cs wf sb sp : wt v (TDiscU cs wf sb sp) = wt v (TUnion cs).
+  Proof. destruct v; reflexivity. Qed.
   Lemma wt_TUnion v cs :
     wt v (TUnion cs) = match v with
                          | VInst cr i j fs => existsb (Nat.eqb cr) cs && inst_ok cr cr i j fs
@@ -306,6 +310,7 @@ Section Trace.
       + rewrite wt_TOpt in Hw. rewrite pack_TOpt. apply IHt; assumption.
       + discriminate.
       + rewrite wt_TDisc, wt_TDc in Hw; discriminate.
+      + discriminate.
     - (* VNone *)
       induction t; intros pc px k Hu Hw Hk.
       + rewrite wt_TInt in Hw; discriminate.
@@ -314,6 +319,7 @@ Section Trace.
       + rewrite pack_TOpt. reflexivity.
       + discriminate.
       + rewrite wt_TDisc, wt_TDc in Hw; discriminate.
+      + discriminate.
     - (* VInst *)
       induction t; intros pc px k Hu Hw Hk.
       + rewrite wt_TInt in Hw; discriminate.
@@ -322,6 +328,7 @@ Section Trace.
       + rewrite wt_TOpt in Hw. rewrite pack_TOpt. apply IHt; assumption.
       + discriminate.
       + rewrite wt_TDisc in Hw. rewrite pack_TDisc. apply inst_trace; assumption.
+      + discriminate.
     - (* VList *)
       induction t; intros pc px k Hu Hw Hk.
       + rewrite wt_TInt in Hw; discriminate.
@@ -331,6 +338,7 @@ Section Trace.
       + rewrite wt_TOpt in Hw. rewrite pack_TOpt. apply IHt; assumption.
       + discriminate.
       + rewrite wt_TDisc, wt_TDc in Hw; discriminate.
+      + discriminate.
   Qed.
 End Trace.
 
@@ -501,29 +509,14 @@ Section Once.
     rewrite call_ok. apply body_once; assumption.
   Qed.
 
-  Theorem pack_mixin_once : forall v, good1 v.
+  Lemma union_once c i j fs :
+    Forall (fun kx => good1 (snd kx)) fs ->
+    forall cs pc px k, wt E true (VInst c i j fs) (TUnion cs) = true ->
+      fst (pack E stubs Mixin (VInst c i j fs) (TUnion cs) pc px k) = true /\
+      map erase (snd (pack E stubs Mixin (VInst c i j fs) (TUnion cs) pc px k)) = map erase (trav E pc k (VInst c i j fs)).
   Proof.
-    induction v using val_ind'; unfold good1.
-    - induction t; intros pc px k Hw.
-      + split; reflexivity.
-      + rewrite wt_TDc in Hw; discriminate.
-      + rewrite wt_TList in Hw; discriminate.
-      + rewrite wt_TOpt in Hw. rewrite pack_TOpt. apply IHt; assumption.
-      + rewrite wt_TUnion in Hw; discriminate.
-      + rewrite wt_TDisc, wt_TDc in Hw; discriminate.
-    - induction t; intros pc px k Hw.
-      + rewrite wt_TInt in Hw; discriminate.
-      + rewrite wt_TDc in Hw; discriminate.
-      + rewrite wt_TList in Hw; discriminate.
-      + rewrite pack_TOpt. split; reflexivity.
-      + rewrite wt_TUnion in Hw; discriminate.
-      + rewrite wt_TDisc, wt_TDc in Hw; discriminate.
-    - induction t; intros pc px k Hw.
-      + rewrite wt_TInt in Hw; discriminate.
-      + apply inst_once; assumption.
-      + rewrite wt_TList in Hw; discriminate.
-      + rewrite wt_TOpt in Hw. rewrite pack_TOpt. apply IHt; assumption.
-      + rewrite wt_TUnion in Hw. apply andb_true_iff in Hw as [Hmem Hok]. unfold inst_ok in Hok.
+    intros H cs pc px k Hw.
+    rewrite wt_TUnion in Hw. apply andb_true_iff in Hw as [Hmem Hok]. unfold inst_ok in Hok.
         apply andb_true_iff in Hok as [Hw Hall]. apply andb_true_iff in Hw as [Hw Hij].
         apply andb_true_iff in Hw as [_ Hnd].
         rewrite pack_TUnion.
@@ -541,7 +534,35 @@ Section Once.
              ++ discriminate.
           -- unfold call_mixin. rewrite (call_ok E).
              apply (body_once c i j fs _ _ pc k); assumption.
+  Qed.
+
+  Theorem pack_mixin_once : forall v, good1 v.
+  Proof.
+    induction v using val_ind'; unfold good1.
+    - induction t; intros pc px k Hw.
+      + split; reflexivity.
+      + rewrite wt_TDc in Hw; discriminate.
+      + rewrite wt_TList in Hw; discriminate.
+      + rewrite wt_TOpt in Hw. rewrite pack_TOpt. apply IHt; assumption.
+      + rewrite wt_TUnion in Hw; discriminate.
+      + rewrite wt_TDisc, wt_TDc in Hw; discriminate.
+      + rewrite wt_TDiscU, wt_TUnion in Hw; discriminate.
+    - induction t; intros pc px k Hw.
+      + rewrite wt_TInt in Hw; discriminate.
+      + rewrite wt_TDc in Hw; discriminate.
+      + rewrite wt_TList in Hw; discriminate.
+      + rewrite pack_TOpt. split; reflexivity.
+      + rewrite wt_TUnion in Hw; discriminate.
+      + rewrite wt_TDisc, wt_TDc in Hw; discriminate.
+      + rewrite wt_TDiscU, wt_TUnion in Hw; discriminate.
+    - induction t; intros pc px k Hw.
+      + rewrite wt_TInt in Hw; discriminate.
+      + apply inst_once; assumption.
+      + rewrite wt_TList in Hw; discriminate.
+      + rewrite wt_TOpt in Hw. rewrite pack_TOpt. apply IHt; assumption.
+      + apply union_once; assumption.
       + rewrite wt_TDisc in Hw. rewrite pack_TDisc. apply inst_once; assumption.
+      + rewrite wt_TDiscU in Hw. rewrite pack_TDiscU. apply union_once; assumption.
     - induction t; intros pc px k Hw.
       + rewrite wt_TInt in Hw; discriminate.
       + rewrite wt_TDc in Hw; discriminate.
@@ -549,6 +570,7 @@ Section Once.
       + rewrite wt_TOpt in Hw. rewrite pack_TOpt. apply IHt; assumption.
       + rewrite wt_TUnion in Hw; discriminate.
       + rewrite wt_TDisc, wt_TDc in Hw; discriminate.
+      + rewrite wt_TDiscU, wt_TUnion in Hw; discriminate.
   Qed.
 End Once.
 
@@ -562,10 +584,18 @@ Section DeEqs.
     match w with
     | WDict _ kvs => dbody E c (dsubs_of kvs)
     | _ => fun n => (None, if c_prede (cls E c) then [PreDe c] else [], n) end.
-  Definition call_dc_de (w: wire) (c: nat) : D :=
-    match c_disc (cls E c) with
-    | Some wf => dispatch E (tag_of w) wf (subclasses E c) (plain_de w)
-    | None => plain_de w c end.
+  Definition from_dict_f (w: wire) : nat -> nat -> D :=
+    fix fd (fuel: nat) (c: nat) {struct fuel} : D :=
+    match fuel with
+    | 0 => plain_de w c
+    | S f => match c_disc (cls E c) with
+             | Some wf => dispatch E (tag_of w) wf (c_tagger (cls E c)) (subclasses E c) (fd f)
+             | None => plain_de w c
+             end
+    end.
+  Definition call_dc_de (w: wire) (c: nat) : D := from_dict_f w (S (length E)) c.
+  Lemma from_dict_plain w fuel c : c_disc (cls E c) = None -> from_dict_f w fuel c = plain_de w c.
+  Proof. intros H. destruct fuel; simpl; [reflexivity|]. rewrite H. reflexivity. Qed.
   Lemma unpack_TInt w : unpack E w TInt = match w with WInt => dret VInt | _ => dfail end.
   Proof. destruct w; reflexivity. Qed.
   Lemma unpack_TOpt w t : unpack E w (TOpt t) = match w with WNone => dret VNone | _ => unpack E w t end.
@@ -581,7 +611,10 @@ Section DeEqs.
   Lemma unpack_TDc w c : unpack E w (TDc c) = call_dc_de w c.
   Proof. destruct w; reflexivity. Qed.
   Lemma unpack_TDisc w p wf sup :
-    unpack E w (TDisc p wf sup) = dispatch E (tag_of w) wf (disc_variants E p sup) (plain_de w).
+    unpack E w (TDisc p wf sup) = dispatch E (tag_of w) wf false (disc_variants E p sup) (call_dc_de w).
+  Proof. destruct w; reflexivity. Qed.
+  Lemma unpack_TDiscU w cs wf sb sp :
+    unpack E w (TDiscU cs wf sb sp) = dispatch E (tag_of w) wf false (discu_variants E cs sb sp) (call_dc_de w).
   Proof. destruct w; reflexivity. Qed.
   Lemma unpack_TUnion w cs : unpack E w (TUnion cs) = dtry (map (call_dc_de w) (dedup_nat cs [])).
   Proof. destruct w; reflexivity. Qed.
@@ -638,13 +671,13 @@ Section DeTrace.
   Qed.
 
   (* a deterministic dispatch (with a field) inherits the property from the variants' from_dict *)
-  Lemma dispatch_trav tg vs (fd: nat -> D) :
+  Lemma dispatch_trav tg tgr vs (fd: nat -> D) :
     (forall v n r tr n', fd v n = (Some r, tr, n') -> tr = trav_de E r) ->
-    forall n r tr n', dispatch E tg true vs fd n = (Some r, tr, n') -> tr = trav_de E r.
+    forall n r tr n', dispatch E tg true tgr vs fd n = (Some r, tr, n') -> tr = trav_de E r.
   Proof.
     intros Hfd n r tr n' H. unfold dispatch in H.
     destruct tg as [[t|]|]; try discriminate.
-    destruct (lookup_tag E vs t) as [v|]; [|discriminate].
+    destruct (lookup_tag E tgr vs t) as [v|]; [|discriminate].
     apply (Hfd v n r tr n' H).
   Qed.
 
@@ -666,11 +699,13 @@ Section DeTrace.
     match w with WDict _ kvs => Forall (fun kx => dgood (snd kx)) kvs | _ => True end ->
     forall c n r tr n', call_dc_de E w c n = (Some r, tr, n') -> tr = trav_de E r.
   Proof.
-    intros IH c n r tr n' H. unfold call_dc_de in H.
-    pose proof (env_uf_disc E c HE) as Hd. unfold disc_det in Hd.
-    destruct (c_disc (cls E c)) as [[|]|]; try discriminate.
-    - eapply dispatch_trav; [|exact H]. intros v. apply plain_trav. exact IH.
+    intros IH c. unfold call_dc_de. generalize (S (length E)) as fuel. intros fuel. revert c.
+    induction fuel as [|f IHf]; intros c n r tr n' H; simpl in H.
     - eapply plain_trav; eauto.
+    - pose proof (env_uf_disc E c HE) as Hd. unfold disc_det in Hd.
+      destruct (c_disc (cls E c)) as [[|]|]; try discriminate.
+      + eapply dispatch_trav; [|exact H]. intros v. apply IHf.
+      + eapply plain_trav; eauto.
   Qed.
 
   Ltac de_case IH :=
@@ -678,7 +713,7 @@ Section DeTrace.
     | H: unpack _ _ (TDc _) _ = _ |- _ => rewrite unpack_TDc in H; eapply call_dc_trav; [|exact H]; exact IH
     | H: unpack _ _ (TDisc _ ?wf _) _ = _, Hu: union_free (TDisc _ ?wf _) = true |- _ =>
         rewrite unpack_TDisc in H; simpl in Hu; rewrite Hu in H;
-        eapply dispatch_trav; [|exact H]; intros v0; apply plain_trav; exact IH
+        eapply dispatch_trav; [|exact H]; intros v0; apply call_dc_trav; exact IH
     end.
 
   Theorem unpack_trav : forall w, dgood w.
@@ -691,6 +726,7 @@ Section DeTrace.
       + rewrite unpack_TOpt in H. apply (IHt n r tr n'); assumption.
       + discriminate.
       + de_case I.
+      + discriminate.
     - induction t; intros n r tr n' Hu H.
       + rewrite unpack_TInt in H. discriminate.
       + de_case I.
@@ -698,6 +734,7 @@ Section DeTrace.
       + rewrite unpack_TOpt in H. inversion H. reflexivity.
       + discriminate.
       + de_case I.
+      + discriminate.
     - induction t; intros n r tr n' Hu H.
       + rewrite unpack_TInt in H. discriminate.
       + de_case IHk.
@@ -705,6 +742,7 @@ Section DeTrace.
       + rewrite unpack_TOpt in H. apply (IHt n r tr n'); assumption.
       + discriminate.
       + de_case IHk.
+      + discriminate.
     - induction t; intros n r tr n' Hu H.
       + rewrite unpack_TInt in H. discriminate.
       + de_case I.
@@ -714,6 +752,7 @@ Section DeTrace.
       + rewrite unpack_TOpt in H. apply (IHt n r tr n'); assumption.
       + discriminate.
       + de_case I.
+      + discriminate.
   Qed.
 End DeTrace.
 
@@ -818,18 +857,18 @@ Proof. intros E w t n r tr n' HE Hu H. apply (unpack_trav E HE w t n r tr n' Hu 
    from_dict of the variant registered for the tag: same result, same identities, same events.  In
    particular the base's own hooks are not run a second time around the dispatch. *)
 Theorem disc_config_dispatch E c t v kvs n :
-  c_disc (cls E c) = Some true -> lookup_tag E (subclasses E c) t = Some v -> c_disc (cls E v) = None ->
+  c_disc (cls E c) = Some true -> lookup_tag E (c_tagger (cls E c)) (subclasses E c) t = Some v -> c_disc (cls E v) = None ->
   unpack E (WDict (Some t) kvs) (TDc c) n = unpack E (WDict (Some t) kvs) (TDc v) n.
 Proof.
-  intros Hc Hl Hv. rewrite !unpack_TDc. unfold call_dc_de. rewrite Hc, Hv.
-  unfold dispatch, tag_of. rewrite Hl. reflexivity.
+  intros Hc Hl Hv. rewrite !unpack_TDc. unfold call_dc_de. simpl from_dict_f. rewrite Hc, Hv.
+  unfold dispatch, tag_of. rewrite Hl. rewrite (from_dict_plain E _ _ v Hv). reflexivity.
 Qed.
 
 Theorem disc_annotated_dispatch E p sup t v kvs n :
-  lookup_tag E (disc_variants E p sup) t = Some v -> c_disc (cls E v) = None ->
+  lookup_tag E false (disc_variants E p sup) t = Some v -> c_disc (cls E v) = None ->
   unpack E (WDict (Some t) kvs) (TDisc p true sup) n = unpack E (WDict (Some t) kvs) (TDc v) n.
 Proof.
-  intros Hl Hv. rewrite unpack_TDisc, unpack_TDc. unfold call_dc_de. rewrite Hv.
+  intros Hl Hv. rewrite unpack_TDisc, unpack_TDc.
   unfold dispatch, tag_of. rewrite Hl. reflexivity.
 Qed.
 
@@ -837,9 +876,9 @@ Qed.
 Theorem disc_no_variant E c kvs n :
   c_disc (cls E c) = Some true ->
   unpack E (WDict None kvs) (TDc c) n = (None, [], n) /\
-  (forall t, lookup_tag E (subclasses E c) t = None -> unpack E (WDict (Some t) kvs) (TDc c) n = (None, [], n)).
+  (forall t, lookup_tag E (c_tagger (cls E c)) (subclasses E c) t = None -> unpack E (WDict (Some t) kvs) (TDc c) n = (None, [], n)).
 Proof.
-  intros Hc. split; [|intros t Hl]; rewrite unpack_TDc; unfold call_dc_de; rewrite Hc; unfold dispatch, tag_of.
+  intros Hc. split; [|intros t Hl]; rewrite unpack_TDc; unfold call_dc_de; simpl from_dict_f; rewrite Hc; unfold dispatch, tag_of.
   - reflexivity.
   - rewrite Hl. reflexivity.
 Qed.
@@ -895,4 +934,12 @@ Proof.
   specialize (H E_subctx true v_subctx (TDc 2) xf_none CTok 1 2 2 eq_refl eq_refl Hon).
   rewrite Hp in H. simpl in H. specialize (H eq_refl eq_refl).
   repeat (destruct H as [H|H]; [discriminate|]). contradiction.
+Qed.
+
+Theorem disc_union_dispatch E cs sb sp t v kvs n :
+  lookup_tag E false (discu_variants E cs sb sp) t = Some v -> c_disc (cls E v) = None ->
+  unpack E (WDict (Some t) kvs) (TDiscU cs true sb sp) n = unpack E (WDict (Some t) kvs) (TDc v) n.
+Proof.
+  intros Hl Hv. rewrite unpack_TDiscU, unpack_TDc.
+  unfold dispatch, tag_of. rewrite Hl. reflexivity.
 Qed.
